@@ -87,7 +87,10 @@ CHECKS = {
    tech="TLA+ renderer spec (LefSyntax) + TLC case enumeration; S->I replay under lexical variants"),
  "C05": dict(cat="model_checking", ref="§6 C05",
    text="Inputs are the image of the reader: the parse result of every C04 case; each distinct result is written by the crate and "
-        "re-read; success and equality (== and projection) are required, a writer error is a violation.",
+        "re-read; success and equality (== and projection) are required, a writer error is a violation. LefGrammar.tla (an "
+        "acceptor: one statement per step, stack of open blocks, invariants Deterministic and StackWellFormed) additionally "
+        "validates the token list of every written text (I->S; a rejection is MODEL-DRIFT), of every rendered text and of "
+        "damaged texts (self-tests).",
    note="Trusted: as C04. The statement-by-statement validation of the written text against the grammar (I->S, conformance only) "
         "is not built; the round trip is the property verdict.",
    tech="TLA+ renderer spec + TLC case enumeration; S->I replay (write/re-read of reader results)"),
